@@ -6,6 +6,8 @@
          (Model/VoronoiPost.v: replicated points, vor.vertices, vor.ridge_vertices (hex, -1 = none), vor.ridge_points)
      reindex <nV> x y ... <nOrder> i ... <nE> j k cx cy ...
          (the re-indexing step for a given enumeration of the surviving vertices)
+     hyps <same arguments as post>
+         (Model/VoronoiPeriodic.post_hyps: pvor_ok and trivalent_ok of the record after the optional shift)
    Output: "key tokens" lines then "end". *)
 open Model
 open Hexio
@@ -102,6 +104,18 @@ let cmd_post c =
      out "sorted" (s_list s_nat (sorted_nodup (edge_ends es)));
      out "margins" (s_list (fun ((b0, s0), (b1, s1)) -> s_z b0 ^ " " ^ s_oz s0 ^ " " ^ s_z b1 ^ " " ^ s_oz s1) ms))
 
+let cmd_hyps c =
+  let shift = next_bool c in
+  let s = next_z c in
+  let points = next_list c next_zpair in
+  let vs = next_list c next_zpair in
+  let rv = next_list c next_zpair in
+  let rp = next_list c next_natpair in
+  let v = { vertices = vs; ridge_vertices = rv; ridge_points = rp } in
+  (match post_hyps shift s points v with
+   | None -> out "hyps" "N"
+   | Some (p, t) -> out "hyps" (s_bool p ^ " " ^ s_bool t))
+
 let cmd_reindex c =
   let vs = next_list c next_zpair in
   let order = next_list c next_nat in
@@ -124,6 +138,7 @@ let () =
           | "c03" -> cmd_c03 c
           | "post" -> cmd_post c
           | "reindex" -> cmd_reindex c
+          | "hyps" -> cmd_hyps c
           | "replicate" -> cmd_replicate c
           | _ -> out "error" ("unknown command " ^ cmd))
        with Failure m -> out "error" m);
